@@ -13,7 +13,6 @@ import (
 	"reflect"
 	"strings"
 	"testing"
-	"testing/synctest"
 	"time"
 	"unsafe"
 
@@ -280,7 +279,7 @@ func execC03(t *testing.T, c *Case) *Verdict {
 	}()
 	var sdig string
 	var outs []string
-	synctest.Test(t, func(t *testing.T) {
+	runBubble(t, func(t *testing.T) {
 		start := time.Now()
 		time.Sleep(time.Duration(c.ClockMs) * time.Millisecond)
 		v.Stats.SubRuns++
